@@ -97,7 +97,7 @@ fn build(ch: &mut Chooser, fmt: &str, s: &str) -> (Vec<u8>, String) {
                     let shifted = extra > 0 && ch.flag("xls.empty-item-with-runs-or-phonetic-block-before");
                     if shifted { table.insert(1, biff8::SstString { text: String::new(), runs, ext }); }
                     // packing of the SST segments: forced to 16-bit through the chooser of the serialiser
-                    let mut inner = Chooser::new(&if wide { vec![0, 1, 1] } else { vec![] });
+                    let mut inner = Chooser::new(&if wide { vec![0, 0, 1, 1] } else { vec![] });
                     book.sst_records = biff8::sst_records(&mut inner, &table, 2);
                     biff8::BCell::LabelSst { r: 1, c: 1, xf: 0, isst: if shifted { 2 } else { 1 } }
                 }
@@ -111,7 +111,7 @@ fn build(ch: &mut Chooser, fmt: &str, s: &str) -> (Vec<u8>, String) {
             (cfb::simple(&[("Workbook", stream)], &cfb::Layout::default()), format!("xls storage={storage} 16bit={wide}"))
         }
         _ => {
-            let storage = ch.choose("ods.storage", 6);
+            let storage = ch.choose("ods.storage", 7);
             let annotated = ch.flag("ods.cell-has-a-comment");
             let val = match storage {
                 0 => ods::OVal::StrContent(s.to_string(), ods::SpaceMode::TextS, false),
@@ -119,7 +119,8 @@ fn build(ch: &mut Chooser, fmt: &str, s: &str) -> (Vec<u8>, String) {
                 2 => ods::OVal::StrContent(s.to_string(), ods::SpaceMode::TextSAll, false),
                 3 => ods::OVal::StrContent(s.to_string(), ods::SpaceMode::TextSEach, false),
                 4 => ods::OVal::StrContent(s.to_string(), ods::SpaceMode::TextS, true),
-                _ => ods::OVal::StrAttr(s.to_string()),
+                5 => ods::OVal::StrAttr(s.to_string()),
+                _ => ods::OVal::StrAttrBare(s.to_string()),
             };
             let book = ods::OBook { sheets: vec![ods::OSheet { name: "S".into(), display: None, rows: vec![
                 ods::ORow { cells: vec![(ods::OCell::new(ods::OVal::StrContent(SENTINEL.into(), ods::SpaceMode::TextS, false)), 1)], repeat: 1 },
